@@ -42,7 +42,7 @@ CLAIMED = {
     "C08": ("fault_enumeration", "property-based testing of lookup circuits: generated tables and lookup multisets around the slot boundaries (positive), post-lookup witness overrides of pairs / table cells / multiplicities / padding with the real prover (negative)",
             "Generated circuits with 1-3 tables and lookup counts around the slot count prove, verify and output the table values; then one looked-up output, table cell, multiplicity or padding slot is overridden after the prover filled the lookup wires and the real prover is run (honest path, zero/scaled Z, perturbed quotient): no plain or compressed proof may verify; a non-member input must not yield an accepted proof.",
             "Tables up to a few rows' worth of 16-bit pairs; distinct table inputs and used tables as the API requires.", "§C08"),
-    "C15": ("exploration", "property-based differential testing against naive definitions (O(n^2) DFT, schoolbook product, long division, Lagrange) over all sizes/zero-tail factors/root tables, structured sparse operands; scalar + debug-assert + AVX-512 builds",
+    "C15": ("exploration", "property-based differential testing against naive definitions (O(n^2) DFT, schoolbook product, long division, Lagrange) over all sizes/zero-tail factors/root tables, structured sparse operands; scalar + debug-assert + AVX-512 builds; plus a coverage-guided libFuzzer/ASan target (bitrev) for the unsafe in-place bit reversal",
             "Hundreds of thousands of generated transform and polynomial-algebra cases per run (sizes 2^0..2^11 against the naive DFT, 2^12..2^16 by identities, every zero-tail factor with and without root table, sparse/untrimmed/equal-degree operands for division, non-power-of-two interpolation, 12 element sizes for in-place bit reversal across all code paths).",
             "Oracle uses u128 arithmetic or the field's basic + - * inverse (judged by C14).", "§C15"),
     "C03": ("fault_enumeration", "property-based fault injection: value/shape edits over the serde tree of accepted proofs (plain + compressed), other-circuit verifier data; oracle = verifier must not accept",
@@ -54,7 +54,7 @@ CLAIMED = {
     "C11": ("exploration", "differential property testing: native STARK verifier vs. in-circuit STARK verifier (library assignment + witness generation + O-sat) in fixed- and multi-degree mode, over generated STARKs and honest / edited / false / badly ground proofs",
             "For each generated STARK definition and config one outer circuit (fixed degree or sized for a maximum degree) is built and fed many proofs: honest proofs of every supported length, value edits in every component class, wrong public inputs, proofs of violating traces, perturbed quotient/auxiliary polynomials, ground final-polynomial and proof-of-work deviations, wrong degree_bits. Native verdict and circuit verdict must be equal; on a sample of rejected cases the real outer prover is run and must not yield an accepted proof.",
             "Shape-edited proofs are outside the stated quantifier (the assignment routines zero-pad by design for the multi-degree mode); differences there are reported in the evidence, not asserted. Poseidon inner config.", "§C11"),
-    "C12": ("exploration", "model-based property testing: independent reference Merkle tree / batch tree / path-compression models, negative catalogue, rayon pools of 1/2/3/16 threads",
+    "C12": ("exploration", "model-based property testing: independent reference Merkle tree / batch tree / path-compression models, negative catalogue, rayon pools of 1/2/3/16 threads; plus a coverage-guided libFuzzer/ASan target (merkle_tree) against the same reference",
             "Tens of thousands of generated trees (Poseidon and Keccak, all cap heights, leaf widths around the digest size, duplicate leaves, batch trees of 1-4 heights, index multisets) compared with a textbook reference; every negative (other leaf/index, altered sibling or cap entry, malformed path) must give the reference verdict; construction repeated under different thread counts.",
             "hash_or_noop/two_to_one are taken from the library (judged by C13); scheduling is varied by pool size and repetition only.", "§C12"),
     "C14": ("exploration", "property-based differential testing against u128/BigUint reference arithmetic, boundary-biased operand generators, scalar + debug-assert + AVX-512 builds; plus a coverage-guided libFuzzer/ASan target (field_ops) against the same reference",
